@@ -141,7 +141,7 @@ def variant(c, rng, kind):
         for k in rng.sample(js, min(len(js), rng.choice([1, 1, 2, 3]))):
             instrs[k]['extra'] = rng.choice([1, 1, 2])
         return rebuild(c, instrs)
-    if kind in ('perm-consts', 'perm-names', 'perm-varnames', 'perm-cellvars', 'pad'):
+    if kind in ('perm-consts', 'perm-names', 'perm-varnames', 'perm-cellvars', 'pad', 'pad-cells'):
         consts, names, varnames, cellvars = list(c.co_consts), list(c.co_names), list(c.co_varnames), list(c.co_cellvars)
         tables = {}
         def renumber(ops, perm, lo=0, hi=None):
@@ -174,6 +174,17 @@ def variant(c, rng, kind):
             perm = permute(rng, len(cellvars))
             renumber(dis.hasfree, perm, 0, len(cellvars))
             tables['co_cellvars'] = tuple(cellvars[o] for o in perm)
+        elif kind == 'pad-cells':
+            # an unreferenced cell variable at the end of co_cellvars (what dead code leaves behind): the free variables
+            # move up by one, CO_NOFREE goes (seeded change C06-r5)
+            if not is_fn:
+                return None
+            n = len(cellvars)
+            for i in instrs:
+                if i['op'] in dis.hasfree and i['target'] is None and i['arg'] >= n:
+                    i['arg'] += 1
+            tables['co_cellvars'] = tuple(cellvars) + ('unused_cell',)
+            tables['co_flags'] = c.co_flags & ~0x40
         else:   # pad: unreferenced entries at the end of the tables
             tables['co_consts'] = tuple(consts) + (rng.choice([12345, 'unused', (1, 2), 2.5, b'x']),)
             tables['co_names'] = tuple(names) + ('unused_name',)
@@ -184,7 +195,7 @@ def variant(c, rng, kind):
     raise ValueError(kind)
 
 
-KINDS = ['nested', 'extended-jump', 'perm-consts', 'perm-names', 'perm-varnames', 'perm-cellvars', 'pad']
+KINDS = ['nested', 'extended-jump', 'perm-consts', 'perm-names', 'perm-varnames', 'perm-cellvars', 'pad', 'pad-cells']
 
 
 def same_reading(a, b):
